@@ -12,6 +12,7 @@
    Pattern matching (match=) and expression evaluation (use=) are abstract functions of the
    node: they belong to other properties (C09/C10, C02). *)
 From Coq Require Import List NArith Bool Arith.
+Require Import XV.GenKey.
 Import ListNotations.
 
 (* ------------------------------------------------------------------------------------------ *)
@@ -166,13 +167,20 @@ Inductive uval := UStr (s : str) | UNodes (vs : list str).
 
 Record decl := Decl { dname : str; dmatch : node -> bool; duse : node -> uval }.
 
+(* a declaration as the stylesheet holds it: match and use also depend on the document the
+   node lives in (a node is a document number and a path); [view d g] is what the table of
+   document d sees of it *)
+Record gdecl := GDecl { gname : str; gmatch : nat -> node -> bool; guse : nat -> node -> uval }.
+
+Definition view (d : nat) (g : gdecl) : decl := Decl (gname g) (gmatch g d) (guse g d).
+
 (* Stylesheet::postConstruction: own declarations, then those of the imports in import order
    (each import already merged with its own imports) *)
-Inductive sheet := Sheet (own : list decl) (imports : list sheet).
+Inductive sheet := Sheet (own : list gdecl) (imports : list sheet).
 
-Fixpoint merged (s : sheet) : list decl :=
+Fixpoint merged (s : sheet) : list gdecl :=
   match s with
-  | Sheet own imps => own ++ (fix go (l : list sheet) : list decl :=
+  | Sheet own imps => own ++ (fix go (l : list sheet) : list gdecl :=
                                match l with [] => [] | i :: r => merged i ++ go r end) imps
   end.
 
@@ -264,9 +272,10 @@ Definition merge_nodes (ix : node -> nat) (acc nl : list node) : list node :=
   end.
 
 (* StylesheetRoot::getNodeSetByKey(context in document d, name, ref, nodelist) *)
-Definition root_lookup (W : world) (decls : list decl) (c : cache) (d : nat) (name ref : str)
+Definition root_lookup (W : world) (G : list gdecl) (c : cache) (d : nat) (name ref : str)
            (acc : list node) : cache * result :=
-  match decls with
+  let decls := map (view d) G in
+  match G with
   | [] => (c, UnknownKey)                          (* m_needToBuildKeysTable == false: nl == 0 *)
   | _ =>
     match cfind d c with
@@ -287,12 +296,13 @@ Definition root_lookup (W : world) (decls : list decl) (c : cache) (d : nat) (na
    the string-values of its nodes *)
 Inductive karg := AStr (s : str) | ANodes (vs : list str).
 
-Fixpoint refs_loop (W : world) (decls : list decl) (c : cache) (d : nat) (name : str)
+Fixpoint refs_loop (W : world) (decls : list gdecl) (c : cache) (d : nat) (name : str)
          (vs : list str) (acc : list node) : cache * result :=
   match vs with
   | [] => (c, Nodes acc)
   | v :: r =>
-      if str_empty v then refs_loop W decls c d name r acc       (* if (0 != ref.length()) *)
+      if skip_empty_refs && str_empty v                          (* if (0 != ref.length()), GenKey.v *)
+      then refs_loop W decls c d name r acc
       else match root_lookup W decls c d name v acc with
            | (c', Nodes acc') => refs_loop W decls c' d name r acc'
            | other => other                                       (* the error aborts *)
@@ -300,7 +310,7 @@ Fixpoint refs_loop (W : world) (decls : list decl) (c : cache) (d : nat) (name :
   end.
 
 (* FunctionKey::execute *)
-Definition function_key (W : world) (decls : list decl) (c : cache) (d : nat) (name : str)
+Definition function_key (W : world) (decls : list gdecl) (c : cache) (d : nat) (name : str)
            (arg : karg) : cache * result :=
   match arg with
   | AStr s => root_lookup W decls c d name s []
@@ -311,7 +321,7 @@ Definition function_key (W : world) (decls : list decl) (c : cache) (d : nat) (n
 
 Definition probe := (nat * str * karg)%type.
 
-Fixpoint run_history (W : world) (decls : list decl) (c : cache) (ps : list probe) : list result :=
+Fixpoint run_history (W : world) (decls : list gdecl) (c : cache) (ps : list probe) : list result :=
   match ps with
   | [] => []
   | (d, name, arg) :: r =>
@@ -339,35 +349,38 @@ Definition key_spec (decls : list decl) (t : tree) (name v : str) : list node :=
 Definition key_spec_set (decls : list decl) (t : tree) (name : str) (vs : list str) : list node :=
   filter (fun n => existsb (fun v => key_pred decls name v n) vs) (doc_nodes t).
 
-Definition key_fn_spec (W : world) (decls : list decl) (d : nat) (name : str) (arg : karg) : result :=
+Definition key_fn_spec (W : world) (G : list gdecl) (d : nat) (name : str) (arg : karg) : result :=
   match arg with
-  | AStr s => Nodes (key_spec decls (wdoc W d) name s)
-  | ANodes vs => Nodes (key_spec_set decls (wdoc W d) name vs)
+  | AStr s => Nodes (key_spec (map (view d) G) (wdoc W d) name s)
+  | ANodes vs => Nodes (key_spec_set (map (view d) G) (wdoc W d) name vs)
   end.
 
+Definition gdeclared (G : list gdecl) (name : str) : bool :=
+  existsb (fun g => str_eqb (gname g) name) G.
+
 (* guard of the node-set argument theorem: FunctionKey skips empty string-values when the
-   node-set has more than one node *)
+   node-set has more than one node (as long as GenKey.skip_empty_refs says the source does) *)
 Definition nodeset_arg_ok (arg : karg) : bool :=
   match arg with
   | AStr _ => true
-  | ANodes vs => (length vs <=? 1) || forallb (fun v => negb (str_empty v)) vs
+  | ANodes vs => (length vs <=? 1) || forallb (fun v => negb (skip_empty_refs && str_empty v)) vs
   end.
 
 (* ------------------------------------------------------------------------------------------ *)
 (* entry point of the correspondence driver: declarations given as tables *)
 
-Definition tdecl := (str * list (node * uval))%type.   (* name, [(matching node, use value)] *)
+Definition tdecl := (str * list ((nat * node) * uval))%type.   (* name, [((doc, matching node), use value)] *)
 
-Fixpoint tfind (n : node) (l : list (node * uval)) : option uval :=
+Fixpoint tfind (d : nat) (n : node) (l : list ((nat * node) * uval)) : option uval :=
   match l with
   | [] => None
-  | (x, u) :: r => if node_eqb n x then Some u else tfind n r
+  | ((d', x), u) :: r => if Nat.eqb d d' && node_eqb n x then Some u else tfind d n r
   end.
 
-Definition decl_of_table (d : tdecl) : decl :=
-  Decl (fst d)
-       (fun n => match tfind n (snd d) with Some _ => true | None => false end)
-       (fun n => match tfind n (snd d) with Some u => u | None => UNodes [] end).
+Definition decl_of_table (t : tdecl) : gdecl :=
+  GDecl (fst t)
+        (fun d n => match tfind d n (snd t) with Some _ => true | None => false end)
+        (fun d n => match tfind d n (snd t) with Some u => u | None => UNodes [] end).
 
 Definition run_case (W : world) (s : sheet) (ps : list probe) : list result :=
   run_history W (merged s) [] ps.
